@@ -77,11 +77,23 @@ struct NoneCell {
 
 impl NoneCell {
     fn expr(&self) -> Expr {
-        let none = Expr::Value(Value::None);
+        self.expr_in_form(0)
+    }
+    /// form 0: operands written as literals; 1: as symbols `:sn` / `:so`; 2: as input fields `vn` / `vo`
+    fn expr_in_form(&self, form: u8) -> Expr {
+        let none = match form {
+            0 => Expr::Value(Value::None),
+            1 => Expr::symbol("sn"),
+            _ => Expr::reff("vn"),
+        };
         let other = if self.failing_right {
             Expr::div(Expr::value(1), Expr::value(0))
         } else {
-            Expr::Value(self.other.clone())
+            match form {
+                0 => Expr::Value(self.other.clone()),
+                1 => Expr::symbol("so"),
+                _ => Expr::reff("vo"),
+            }
         };
         match self.kind.as_str() {
             "index-field" => Expr::index(none, Index::Map("a".into())),
@@ -98,6 +110,18 @@ impl NoneCell {
     fn case(&self) -> EvalCase {
         EvalCase::plain(self.expr(), Value::None)
     }
+    fn case_in_form(&self, form: u8) -> EvalCase {
+        match form {
+            0 => self.case(),
+            1 => EvalCase {
+                expr: self.expr_in_form(1),
+                facts: Value::None,
+                fns: Default::default(),
+                symbols: [("sn".to_string(), Value::None), ("so".to_string(), self.other.clone())].into_iter().collect(),
+            },
+            _ => EvalCase::plain(self.expr_in_form(2), pool::map(&[("vn", Value::None), ("vo", self.other.clone())])),
+        }
+    }
     fn to_json(&self) -> serde_json::Value {
         serde_json::json!({"kind": self.kind, "pos": self.pos, "other": value_to_json(&self.other),
             "failing_right": self.failing_right, "text": show_expr(&self.expr())})
@@ -113,7 +137,15 @@ impl NoneCell {
 }
 
 fn check_cell(c: &NoneCell) -> Verdict {
-    let case = c.case();
+    // the same cell with its operands written as literals, supplied by symbols of a ruleset, and read from the input
+    for form in 0..3u8 {
+        check_cell_form(c, form)?;
+    }
+    Ok(())
+}
+
+fn check_cell_form(c: &NoneCell, form: u8) -> Verdict {
+    let case = c.case_in_form(form);
     let r = match observe(&case).actual {
         Actual::Done(r) => r,
         Actual::Panic(p) => return Err(Issue::new("none:panic", format!("panic {p}; case {}", case.render()))),
@@ -136,11 +168,12 @@ fn check_cell(c: &NoneCell) -> Verdict {
         Ok(())
     } else {
         Err(Issue::new(
-            format!("none:{}:pos{}:{}", c.kind, c.pos, type_name(&c.other)),
+            format!("none:{}:pos{}:{}{}", c.kind, c.pos, type_name(&c.other), ["", ":via-symbols", ":via-input-fields"][form as usize]),
             format!(
-                "None rule violated: expected {want:?}, implementation returned {}; case {}",
+                "None rule violated: expected {want:?}, implementation returned {}; case {}{}",
                 me::show_actual(&r),
-                case.render()
+                case.render(),
+                if form == 1 { format!(" with symbols sn = none, so = {}", show_value(&c.other)) } else { String::new() }
             ),
         ))
     }
@@ -317,6 +350,59 @@ fn check_condition(ci: usize, fi: usize) -> Verdict {
     Ok(())
 }
 
+// ---- the input as a whole is None ---------------------------------------------------------------------------------
+
+fn none_input_exprs() -> Vec<Expr> {
+    let facts = || Expr::reff("facts");
+    let fx = || Expr::index(facts(), Index::Map("x".into()));
+    vec![
+        facts(),
+        fx(),
+        Expr::index(fx(), Index::Map("y".into())),
+        Expr::index(facts(), Index::Vec(0)),
+        Expr::index(Expr::index(facts(), Index::Vec(0)), Index::Map("x".into())),
+        Expr::not(fx()),
+        Expr::add(fx(), Expr::value(1)),
+        Expr::eq(fx(), Expr::value(1)),
+        Expr::neq(fx(), fx()),
+        Expr::lt(fx(), Expr::value(1)),
+        mk1("is_none", fx()),
+        mk1("is_some", facts()),
+        Expr::contains(Expr::Vec(vec![Expr::value(1)]), fx()),
+        Expr::contains(fx(), Expr::value(1)),
+        Expr::contains(facts(), Expr::value("x".to_string())),
+        Expr::iif(mk1("is_none", fx()), Expr::value(1), Expr::value(2)),
+        Expr::iif(fx(), Expr::value(1), Expr::value(2)),
+        Expr::Vec(vec![fx(), facts()]),
+        Expr::uppercase(fx()),
+        Expr::int(facts()),
+    ]
+}
+
+fn check_none_input(i: usize) -> Verdict {
+    let e = none_input_exprs().swap_remove(i);
+    let want = me::eval_plain(&e, &Value::None);
+    let spec = crate::probe::SetSpec { rules: vec![("r".into(), e.clone())], fns: Default::default(), symbols: Default::default(), suspend: 0 };
+    let built = crate::probe::build(&spec, false);
+    let one = |r: Result<Vec<reval::ruleset::Outcome>, reval::Error>| -> Result<Value, reval::Error> { r.and_then(|mut o| o.pop().expect("one outcome").value) };
+    let runs: Vec<(&str, Result<Result<Value, reval::Error>, String>)> = vec![
+        ("Expr::evaluate(&Value::None)", catch(|| block_on(e.evaluate(&Value::None)))),
+        ("RuleSet::evaluate_value(&Value::None)", catch(|| one(block_on(built.ruleset.evaluate_value(&Value::None))))),
+        ("RuleSet::evaluate(&())", catch(|| one(block_on(built.ruleset.evaluate(&()))))),
+        ("RuleSet::evaluate(&None::<u8>)", catch(|| one(block_on(built.ruleset.evaluate(&None::<u8>))))),
+    ];
+    for (path, r) in runs {
+        let r = r.map_err(|p| Issue::new("none-input:panic", format!("{path} panicked on {}: {p}", show_expr(&e))))?;
+        if let Some(d) = me::compare(&r, &want) {
+            return Err(Issue::new(
+                format!("none-input:{}", root_sig(&e)),
+                format!("{} with an input that is None as a whole, through {path}: implementation {}, reference {} ({d:?})", show_expr(&e), me::show_actual(&r), me::show_model(&want)),
+            ));
+        }
+    }
+    Ok(())
+}
+
 pub(crate) fn check_deep(case: &EvalCase) -> Verdict {
     let o = observe(case);
     super::c02::judge(case, &o.actual, &o.model).map_err(|i| Issue::new(i.sig.replace("table:", "none-tree:"), i.msg))
@@ -326,7 +412,7 @@ pub fn run(ctx: &Ctx) {
     ctx.set_rule(
         "Generated: every node kind x None in each operand position (left, right, both) x every value of the boundary pool as the \
          other operand (exhaustive), including partners that would be a type error without the None, == / != with a None left and \
-         a right operand that fails if evaluated, index steps into None, None as if/and/or condition; 25 None-valued and None-rule-valued conditions (none, !none, !missing, none == none, !(none >= x), ...) in 10 if / and / or frames incl. literal true/false branches, built through constructors and through text, evaluated by Expr::evaluate and as a rule of a ruleset (exhaustive); and random typed trees whose \
+         a right operand that fails if evaluated, index steps into None, None as if/and/or condition; every cell also with its operands supplied by symbols of a ruleset and by input fields; 20 expressions over an input that is None as a whole (facts.x, facts.0, ...) through Expr::evaluate, evaluate_value, evaluate(&()) and evaluate(&None); 25 None-valued and None-rule-valued conditions (none, !none, !missing, none == none, !(none >= x), ...) in 10 if / and / or frames incl. literal true/false branches, built through constructors and through text, evaluated by Expr::evaluate and as a rule of a ruleset (exhaustive); and random typed trees whose \
          leaves are replaced by lookups that miss (missing key, index past the end, steps into those, a None input field). Oracle: \
          the statement's list as an independent table (cells); reference evaluator (trees). Non-trivial: the other operand is itself \
          not of a type the operator supports, or None arises from a lookup.",
@@ -334,6 +420,9 @@ pub fn run(ctx: &Ctx) {
     ctx.assume("table in harness/src/props/c04.rs transcribes the property statement");
 
     super::regressions::run(ctx, "C04", |j| {
+        if j.get("none_input").is_some() {
+            return replay(j);
+        }
         if let Some(a) = j.get("none_condition").and_then(|a| a.as_array()) {
             let (ci, fi) = (a.first()?.as_u64()? as usize, a.get(1)?.as_u64()? as usize);
             return (ci < conditions().len() && fi < frames().len()).then(|| check_condition(ci, fi));
@@ -415,6 +504,20 @@ pub fn run(ctx: &Ctx) {
         "nonecond",
     );
 
+    let nni = none_input_exprs().len() as u64;
+    ctx.enumerate(
+        "none-as-whole-input",
+        nni,
+        true,
+        |i, acc| {
+            acc.cell("none-input", true);
+            acc.sample("none-input", || show_expr(&none_input_exprs()[i as usize]));
+            check_none_input(i as usize)
+        },
+        |i| serde_json::json!({"none_input": i, "text": show_expr(&none_input_exprs()[i as usize])}),
+        "noneinput",
+    );
+
     // depth 2: every outer kind over every inner cell of a small pool containing None, in each operand position
     // (e.g. !(none < x) must be true: the inner None rule composes with the outer operator)
     let c2 = Cells2::new(vec![
@@ -476,6 +579,9 @@ pub fn run(ctx: &Ctx) {
 }
 
 pub fn replay(j: &serde_json::Value) -> Option<Verdict> {
+    if let Some(i) = j.get("none_input").and_then(|x| x.as_u64()) {
+        return ((i as usize) < none_input_exprs().len()).then(|| check_none_input(i as usize));
+    }
     if let Some(a) = j.get("none_condition").and_then(|a| a.as_array()) {
         let (ci, fi) = (a.first()?.as_u64()? as usize, a.get(1)?.as_u64()? as usize);
         return (ci < conditions().len() && fi < frames().len()).then(|| check_condition(ci, fi));
